@@ -102,7 +102,7 @@ func valueToTree(v interface{}) J {
 		return J{"j": "null"}
 	case string:
 		n := J{"j": "str", "v": x}
-		if t, err := time.Parse(time.RFC3339, x); err == nil && t.Unix() > 0 && t.Unix() < 2000000000 {
+		if t, err := time.Parse(time.RFC3339, x); err == nil && t.Unix() > -2147483647 && t.Unix() < 2147483648 { // what a TLC integer can hold
 			n["ts"] = t.Unix()
 		}
 		if d, ok := parseXSD(x); ok {
